@@ -217,7 +217,7 @@ def rewrite_select(src):
             if len(arms) != 2 or arms[0] is not ka[0]:
                 raise RegenError("R2: unexpected shape of a select! racing keep_alive()")
             (p1, f1, h1), (p2, f2, h2) = arms
-            txt = ("{ let __ka = " + f1 + "; if ::tokio::__cancelled(&__ka) { let " + p2 + " = " + f2 + "; " + h2 +
+            txt = ("{ let __ka = " + f1 + "; if ::tokio::__take_cancelled() { ::std::mem::forget(__ka); let " + p2 + " = " + f2 + "; " + h2 +
                    " } else { let " + p1 + " = __ka; " + h1 + " } }")
         else:
             parts = []
@@ -290,6 +290,21 @@ def transform_file(rel, src, stats):
     n_now = len(re.findall(r"\bSystemTime::now\(\)", s))
     s = re.sub(r"\bSystemTime::now\(\)", "verif_env::system_now()", s)
     s = re.sub(r"\bUuid::new_v4\(\)", "verif_env::new_uuid_v4()", s)
+    if rel.endswith("passage-protocol/src/connection.rs"):
+        # R2b: cancellation point at the head of the endless keep_alive() loop
+        m = re.search(r"fn keep_alive<T>\(&mut self\) -> Result<T, Error> \{\s*loop \{", s)
+        if not m:
+            raise RegenError("R2b: keep_alive() no longer has the expected shape")
+        s = s[:m.end()] + " if ::tokio::__cancel_point() { return Err(Error::NoTargetFound); }" + s[m.end():]
+        # R10 / R11: JSON codec and MAC are environment models in the whole-connection encoding
+        n_json = len(re.findall(r"\bserde_json::", s))
+        s = re.sub(r"\bserde_json::", "crate::verif_always_models::json::", s)
+        m = re.search(r"use crate::cookie::\{([^}]*)\};", s)
+        if not m or not re.search(r"\bsign\b", m.group(1)) or not re.search(r"\bverify\b", m.group(1)) or n_json == 0:
+            raise RegenError("R10/R11: connection.rs no longer imports cookie::{sign, verify} / uses serde_json as expected")
+        names = [x.strip() for x in m.group(1).split(",") if x.strip() and x.strip() not in ("sign", "verify")]
+        s = s[:m.start()] + "use crate::cookie::{" + ", ".join(names) + "};\nuse crate::verif_always_models::mac::{sign, verify};" + s[m.end():]
+        stats["json_calls"] = n_json
     stats["await"] += n_await
     stats["async"] += n_async
     stats["select"] += n_sel
@@ -318,11 +333,13 @@ reqwest = {{ path = "{shims}/reqwest" }}
 proxy-header = {{ path = "{shims}/proxy-header" }}
 rsa = {{ path = "{shims}/rsa" }}
 rand = {{ path = "{shims}/rand" }}
+aes = {{ path = "{shims}/aes" }}
+cfb8 = {{ path = "{shims}/cfb8" }}
 """
     return head
 
 
-def regenerate(repo, verif, ws, crates=("passage-packets", "passage-adapters", "passage-protocol")):
+def regenerate(repo, verif, ws, crates=("passage-packets", "passage-adapters", "passage-protocol"), seed_only=False):
     stats = {"await": 0, "async": 0, "select": 0, "hashmap": 0, "systemtime": 0, "files": 0}
     os.makedirs(ws, exist_ok=True)
     members = []
@@ -365,6 +382,8 @@ def regenerate(repo, verif, ws, crates=("passage-packets", "passage-adapters", "
             add = []
             for fn in sorted(os.listdir(hdir)):
                 if fn.endswith(".rs"):
+                    if seed_only and not (fn.startswith("always_") or fn == "seed.rs"):
+                        continue
                     shutil.copy(os.path.join(hdir, fn), os.path.join(dst, "src", "verif_" + fn))
                     gate = "" if fn.startswith("always_") else "#[cfg(kani)]\n"
                     add.append(f"{gate}pub mod verif_{fn[:-3]};")
